@@ -222,7 +222,9 @@ def worker(ctx):
                 finally:
                     mods_old.close()
                 if use_c and creqs:
-                    for config in (["gcc-O0-sep", "gcc-asan-ubsan"] if ctx.quick else ["gcc-O0-sep", "gcc-O2-single", "gcc-asan-ubsan"]):
+                    # emu-BE-O1: the same older decoder on an emulated big-endian host (vlib/be_emu.py): prefixes are read and skipped there too
+                    for config in (["gcc-O0-sep", "gcc-asan-ubsan"] + (["emu-BE-O1"] if case_id % 3 == 0 else []) if ctx.quick
+                                   else ["gcc-O0-sep", "gcc-O2-single", "gcc-asan-ubsan", "emu-BE-O1"]):
                         try:
                             exe = sut_c.build(dirs[vi][0], old_root, config)
                         except sut_c.BuildError as e:
